@@ -1,10 +1,6 @@
 SPECIFICATION TraceSpec
 CONSTANTS
-  DocSet = "unit"
-  CfgSet = "default"
-  MaxComments = 0
-  OnlyDocumented = TRUE
-  Specials = FALSE
+  Plans <- DefaultPlans
   TraceFile = "events.ndjson"
 INVARIANTS
   VerdictInv
